@@ -122,12 +122,14 @@ type World struct {
 	nextIno uint64
 	tick    int64
 
-	Log      []Op
-	Frozen   bool // killed: nothing has effect any more
-	Killed   bool
-	Blocked  bool // stuck in a read of standard input that never returns
-	ExitCode int
-	Exited   bool
+	Log    []Op
+	Frozen bool // killed: nothing has effect any more
+	// the kill struck an operation of a goroutine other than main
+	killPending bool
+	Killed      bool
+	Blocked     bool // stuck in a read of standard input that never returns
+	ExitCode    int
+	Exited      bool
 
 	Stdout      []byte
 	Stderr      []byte
@@ -420,6 +422,11 @@ func (w *World) begin(name, path string) (op *Op, flt *Fault, ok bool) {
 	if w.Frozen {
 		op.Post = true
 		op.Err = "EIO"
+		if w.killPending && OnMainGoroutine != nil && OnMainGoroutine() {
+			// killed while another goroutine was at work: main goes now
+			w.killPending = false
+			panic(Kill{AtOp: op.Seq})
+		}
 		return op, nil, false
 	}
 	if f, has := w.faultAt[seq]; has {
@@ -561,6 +568,13 @@ func (w *World) FiredOps() []Op {
 	return out
 }
 
+// OnMainGoroutine, set by the harness, reports whether the calling goroutine is
+// the one that runs the program's main. A process dies as a whole: when the kill
+// strikes an operation of another goroutine, that goroutine ends there and main
+// is unwound at its next operation (a panic in a goroutine nobody recovers
+// would take the simulator down with it).
+var OnMainGoroutine func() bool
+
 // kill freezes the world and unwinds the program.
 func (w *World) kill(op *Op, f *Fault) {
 	op.Fault = "kill"
@@ -568,6 +582,10 @@ func (w *World) kill(op *Op, f *Fault) {
 	w.FiredSeq = append(w.FiredSeq, op.Seq)
 	w.Frozen = true
 	w.Killed = true
+	if OnMainGoroutine != nil && !OnMainGoroutine() {
+		w.killPending = true
+		runtime.Goexit()
+	}
 	panic(Kill{AtOp: op.Seq})
 }
 
